@@ -239,6 +239,8 @@ class SequenceSearchResults(UserDict):
         else:
             self.data[sid] = [result]
 
-    def remove(self, sid):
+    def remove(self, sid, section_id):
+        """ Remove results of the given section of sequence sid. """
         if sid in self.data:
-            del self.data[sid]
+            self.data[sid] = [r for r in self.data[sid]
+                              if r.section_id != section_id]
